@@ -352,7 +352,21 @@ pub fn add(lhs: &Value, rhs: &Value) -> Result<Value, Error> {
 }
 
 math_binop!(sub, checked_sub, -);
-math_binop!(rem, checked_rem_euclid, %);
+
+/// Implements a binary `rem` operation on values.
+///
+/// Like `//` this follows the Euclidean convention for integers and floats
+/// alike, so that `(a // b) * b + a % b == a` and `0 <= a % b < |b|`.
+pub fn rem(lhs: &Value, rhs: &Value) -> Result<Value, Error> {
+    match coerce(lhs, rhs, true) {
+        Some(CoerceResult::I128(a, b)) => match a.checked_rem_euclid(b) {
+            Some(val) => Ok(int_as_value(val)),
+            None => Err(failed_op("%", lhs, rhs)),
+        },
+        Some(CoerceResult::F64(a, b)) => Ok(a.rem_euclid(b).into()),
+        _ => Err(impossible_op("%", lhs, rhs)),
+    }
+}
 
 pub fn mul(lhs: &Value, rhs: &Value) -> Result<Value, Error> {
     if let Some((s, n)) = lhs
